@@ -67,13 +67,13 @@ def parseTimestamp (s : String) : Outcome Int :=
     match b64Decode s.toList with
     | none => .err .integrity
     | some v =>
-      if v.length < 8 then .panic "parse_xml_timestamp:index"                  -- `v[0..8]`
+      if v.length < 8 then .err .integrity                  -- `v[0..8]`
       else
         let x := leI64 (v.take 8)
-        if x > i64Max / 1000 ∨ x < -(i64Max / 1000) then .panic "parse_xml_timestamp:arith"   -- `Duration::seconds`
+        if x > i64Max / 1000 ∨ x < -(i64Max / 1000) then .err .integrity   -- `Duration::seconds`
         else
           let r := baseline + x
-          if r < minDateTime ∨ r > maxDateTime then .panic "parse_xml_timestamp:arith"       -- `baseline + d`
+          if r < minDateTime ∨ r > maxDateTime then .err .integrity       -- `baseline + d`
           else .ok r
 
 /-- `format_xml_timestamp` -/
